@@ -125,6 +125,35 @@ MkProbeG(d, s) ==
 
 NGridVars(s) == (IF s.grid = "free" THEN s.N ELSE IF s.lT THEN s.N - 1 ELSE 0) + (IF s.lt0 THEN s.N ELSE 0)
 
+(***************************************************************************)
+(* C07 family: sampling commutes with expression evaluation; array layout. *)
+(***************************************************************************)
+E1 == Plus(Times(X(1), U(1)), Tm)
+E2 == Minus(Times(P(1), X(1)), TT)
+E3 == Sq(Plus(X(1), X(2)))
+E4 == Plus(Times(X(2), T0), DTc)
+Col2 == <<<<X(1)>>, <<X(2)>>>>
+Row2 == <<<<X(1), X(2)>>>>
+Mat22 == <<<<Times(X(1), Tm), U(1)>>, <<P(1), TT>>>>
+MatX == <<<<X(1), X(3)>>, <<X(2), X(4)>>>>              \* the 2x2 matrix state of R8 itself
+MatPX == <<<<Times(P(1), X(1)), Times(P(3), X(3))>>, <<Times(P(2), X(2)), Times(P(4), X(4))>>>>
+ReadsC07(s) ==
+  LET grids == IF s.meth = "DC" THEN <<"control", "control-", "integrator", "roots">> ELSE <<"control", "control-", "integrator">>
+      mats == IF s.rhs = "R8" THEN <<<<<<E1>>>>, Col2, Row2, Mat22, MatX, MatPX>> ELSE <<<<<<E1>>>>, <<<<E2>>>>, <<<<E3>>>>, <<<<E4>>>>, Col2, Row2, Mat22>>
+  IN Flat(Tup([gi \in 1..Len(grids) |-> Tup([mi \in 1..Len(mats) |-> MRead("C07.a", "msample", mats[mi], grids[gi])])]))
+     \o <<MRead("C07.b", "mvalue", <<<<Plus(Times(TT, CI(3)), T0)>>>>, ""), MRead("C07.b", "mvalue", <<<<TT, T0>>, <<TF, CI(1)>>>>, "")>>
+
+MkDeclS(s) ==
+  LET N == s.N
+      d0 == Rhs(s.rhs, N)
+      d1 == [d0 EXCEPT !.method = IF s.meth = "DC" THEN MethodDC(N, s.M, "radau", 2, GridOf(s.grid, N))
+                                  ELSE Method(s.meth, N, s.M, "rk", GridOf(s.grid, N)),
+                       !.reads = ReadsC07(s)]
+  IN WithHorizon(d1, s.hz, IF s.seed % 2 = 0 THEN One ELSE Q(-1, 2), TBase(s.grid, N))
+
+SpaceS == [rhs : {"R3v", "R8"}, meth : {"MS", "SS", "DC"}, N : 1..(IF Thorough THEN 3 ELSE 2), M : 1..2, grid : {"uni", "geo"},
+           hz : {"num", "fb"}, seed : IF Thorough THEN {Seed, Seed + 1} ELSE {Seed}, cons : {<<>>}, obj : {<<>>}]
+
 MaxN == IF Thorough THEN 4 ELSE 3
 MaxM == IF Thorough THEN 3 ELSE 2
 
@@ -170,10 +199,11 @@ Code(s) == s.N + 3 * s.M + s.seed + Len(s.cons) + Len(s.obj)
            + (CASE s.grid = "uni" -> 0 [] s.grid = "geo" -> 1 [] s.grid = "geoL" -> 2 [] s.grid = "fun" -> 3 [] OTHER -> 4)
            + (CASE s.meth = "MS" -> 0 [] OTHER -> 5)
 
-Init == sc \in {s \in (IF Family = "C06" THEN SpaceG ELSE Space) : Code(s) % Parts = Part}
+Init == sc \in {s \in (CASE Family = "C06" -> SpaceG [] Family = "C07" -> SpaceS [] OTHER -> Space) : Code(s) % Parts = Part}
 Next == UNCHANGED sc
 
-Emit == LET d == IF Family = "C06" THEN MkDeclG(sc) ELSE MkDecl(sc)
+DeclOf(s) == CASE Family = "C06" -> MkDeclG(s) [] Family = "C07" -> MkDeclS(s) [] OTHER -> MkDecl(s)
+Emit == LET d == DeclOf(sc)
             pr == IF Family = "C06" THEN MkProbeG(d, sc) ELSE MkProbe(d, sc.seed)
             pr2 == [MkProbe(d, sc.seed + 4) EXCEPT !.gv = pr.gv]
         IN TLCSet(1, Append(TLCGet(1), [sc |-> sc, decl |-> d, probe |-> pr, pred |-> Predict(d, pr, pr2)]))
@@ -181,7 +211,7 @@ Emit == LET d == IF Family = "C06" THEN MkDeclG(sc) ELSE MkDecl(sc)
 (* model-level invariant checked on every scenario: the as-built placement
    equals the declared placement when no deviation is enabled *)
 PlacementOK ==
-  LET d == IF Family = "C06" THEN MkDeclG(sc) ELSE MkDecl(sc)
+  LET d == DeclOf(sc)
   IN \A i \in 1..Len(d.cons) :
         EmittedPoints(d.cons[i], d.method.N, d.method.M, d.method.degree, {}) = DeclaredPoints(d.cons[i], d.method.N, d.method.M, d.method.degree)
 
